@@ -214,6 +214,8 @@ def _gen_prog(rng, cfg, counter_only, edge, handle_share=55):
         elif r < 17:
             ops.append([UNLOCK, cur])
             st[cur] = 'U'
+            if rng.chance(1, 4):
+                ops.append([UNLOCK, cur])   # a second unlock() of the same handle: nothing happens, nothing throws
             if rng.chance(1, 3):
                 ops.append([BOOL, cur])
             if rng.chance(1, 4):
@@ -615,9 +617,155 @@ def mon_reader_blocked(case, lines):
     return None
 
 
+def _register_history(case, lines):
+    """[(thread, start line, end line or None, kind, args, result or None)] of the completed / pending operations
+    that read or write the wrapped object, or None when the case is outside the register view"""
+    cfg = case['cfg']
+    hist = []
+    cur = {}
+    idx = {}
+    for i, l in enumerate(lines):
+        if len(l) != 5 or l[0] < 0:
+            continue
+        t, k, ob, v, m = l
+        if k == K['INVOKE']:
+            n = idx.get(t, 0)
+            idx[t] = n + 1
+            prog = case['progs'][t] if t < len(case['progs']) else []
+            cur[t] = [prog[n] if n < len(prog) else [v], i]
+        elif k in (K['RET'], K['CATCH']) and t in cur:
+            op, start = cur.pop(t)
+            if k == K['CATCH']:
+                continue                      # an operation that threw has no effect
+            e = _regop(cfg, op, v)
+            if e is not None:
+                hist.append((t, start, i, e[0], e[1], e[2]))
+    for t, (op, start) in cur.items():
+        e = _regop(cfg, op, None)
+        if e is not None:
+            hist.append((t, start, None, e[0], e[1], None))
+    return hist
+
+
+def _regop(cfg, op, ret):
+    """(kind, args, expected result or None = unchecked) ; None: not an access of the wrapped object"""
+    code = op[0]
+    a = list(op[1:]) + [0, 0, 0, 0]
+    if not available(cfg, code):
+        return None
+    if code in (LOAD, CAST):
+        return ('load', (), ret)
+    if code == READ:
+        return ('load', (), ret if a[0] % 2 else None)
+    if code in (STORE, ASSIGN):
+        return ('store', (a[0],), None)
+    if code == MODIFY:
+        return ('incr', (), ret if a[0] % 2 else None)
+    if code == EXCHANGE:
+        return ('xchg', (a[0],), ret)
+    if code == CAS:
+        return ('cas', (a[0], a[1]), ret)
+    if code == USE:
+        if ret is not None and ret < 0:
+            return None                       # refused / skipped / null handle: no access
+        if a[1] == 0:
+            return ('load', (), ret)
+        if a[1] == 1:
+            return ('incr', (), ret)
+        if a[1] == 2:
+            return ('store', (a[2],), None)
+    return None
+
+
+def _apply(x, kind, args):
+    if kind == 'load':
+        return x, x
+    if kind == 'store':
+        return args[0], 0
+    if kind == 'incr':
+        return x + 1, x + 1
+    if kind == 'xchg':
+        return args[0], x
+    if x == args[0]:
+        return args[1], 2 * args[0] + 1
+    return x, 2 * x
+
+
+def mon_linearizable(case, lines):
+    """(C15) brute force: the history of register operations (invoke / return positions and values) has a
+    linearization against the sequential register; pending operations may or may not have taken effect"""
+    cfg = case['cfg']
+    if not locking(cfg) or uses_unowned(case):
+        return None
+    hist = _register_history(case, lines)
+    n = len(hist)
+    if n == 0 or n > 12:
+        return None
+    fin = _final(lines)
+    memo = set()
+
+    def search(x, done):
+        if (x, done) in memo:
+            return False
+        if all(done >> i & 1 or hist[i][2] is None for i in range(n)):
+            if fin is None or _verdict(lines) != 0 or fin[0] == x:
+                return True
+        # candidates: not yet linearized, and no unlinearized completed operation ended before they started
+        first_end = min([hist[i][2] for i in range(n) if not done >> i & 1 and hist[i][2] is not None] or [10 ** 9])
+        for i in range(n):
+            if done >> i & 1 or hist[i][1] > first_end:
+                continue
+            y, r = _apply(x, hist[i][3], hist[i][4])
+            if hist[i][5] is not None and hist[i][5] != r:
+                continue
+            if search(y, done | 1 << i):
+                return True
+        memo.add((x, done))
+        return False
+
+    if search(cfg[3], 0):
+        return None
+    return 'no linearization of the %d register operations %s explains the returned values%s' % (
+        n, [(h[0], h[3], h[4], h[5]) for h in hist], '' if fin is None else ' and the final value %d' % fin[0])
+
+
+def mon_torn_load(case, lines):
+    """(C15) a load / read closes its read window while the object is half-written"""
+    if not locking(case['cfg']) or uses_unowned(case):
+        return None
+    for i, l in enumerate(lines):
+        if len(l) == 5 and l[1] == K['FAULT'] and l[3] in (2, 4):
+            return 'thread %d read a half-written object (payload fault %d) at trace line %d' % (l[0], l[3], i)
+    return None
+
+
+def mon_whole_object_op_unlocked(case, lines):
+    """(C01) load / store / operator= / modify / read / exchange / compare_exchange / operator T completed
+    without acquiring the wrapper's mutex between its K_INVOKE and its K_RET"""
+    cfg = case['cfg']
+    if not locking(cfg):
+        return None
+    for o in _ops(case, lines):
+        if o['op'][0] in WHOLE and available(cfg, o['op'][0]) and (o['ret'] is not None or o['caught']):
+            got = any(k in (K['LOCK'], K['LOCK_SH']) or (k in TRY_KINDS and v) for (_, k, _, v) in o['events'])
+            if not got:
+                return 'thread %d: %s completed without acquiring the mutex (trace line %d)' % (o['t'], o['op'], o['at'])
+    return None
+
+
+def mon_unexpected_exception(case, lines):
+    """an operation ends in K_CATCH although no user-code invocation of the throw plan threw inside it"""
+    for o in _ops(case, lines):
+        if o['caught'] and not any(k == K['THROW'] for (_, k, _, _) in o['events']):
+            return 'thread %d: %s ended with an exception that no user code threw (trace line %d)' % (o['t'], o['op'], o['at'])
+    return None
+
+
 MONITORS = {
     'window_fault': mon_window_fault, 'lost_update': mon_lost_update, 'handle_truth': mon_handle_truth,
     'try_blocks': mon_try_blocks, 'release_balance': mon_release_balance, 'deadlock': mon_deadlock,
     'disabled_mode': mon_disabled_mode, 'unlock_after_throw': mon_unlock_after_throw,
     'rw_overlap': mon_rw_overlap, 'reader_blocked': mon_reader_blocked,
+    'linearizable': mon_linearizable, 'torn_load': mon_torn_load,
+    'whole_object_op_unlocked': mon_whole_object_op_unlocked, 'unexpected_exception': mon_unexpected_exception,
 }
